@@ -42,10 +42,21 @@ def one_case(seed):
     try:
         e2e.write_pkg(files, top / "src")
         before = {p for p in top.rglob("*") if p.is_file()}
-        res = e2e.run_tool(_impl(), top / "src" / src_name, top / "out", **opts)
+        if seed % 3 == 0:
+            # the output directory as a RELATIVE path (library callers; the CLI resolves `-o` itself)
+            cwd = os.getcwd()
+            os.chdir(top)
+            try:
+                res = e2e.run_tool(_impl(), top / "src" / src_name, Path("out"), out_as_given=True, **opts)
+            finally:
+                os.chdir(cwd)
+            base_extra = {"output_directory": "relative ('out', cwd = the directory above)"}
+        else:
+            res = e2e.run_tool(_impl(), top / "src" / src_name, top / "out", **opts)
+            base_extra = {}
         after = {p for p in top.rglob("*") if p.is_file()}
         out["n_files"] = len(res["files"])
-        base = {"stage": "S-L", "seed": seed, "options": opts, "source_directory": src_name}
+        base = {"stage": "S-L", "seed": seed, "options": opts, "source_directory": src_name, **base_extra}
         if res["outcome"] != "ok":
             return out
         api_files = [p for p in res["files"] if p.endswith("__api.json")]
